@@ -208,8 +208,8 @@ def nextHostOnly (s : String) : Bool := s == "none" || s.startsWith "simple:" ||
 
 /-! ### `specc`: speculative executions stepped one micro-step at a time, with cancellation at any point — the op
     line is the observed history; it is replayed through `ExecutorConc.stepC` and every observation is compared with
-    what the machine does (theorems C13_cancel_stops_requests_partial, C13_caller_cancel_stops_requests,
-    C13_query_result_stops_requests, C13_first_result_wins, C13_result_iff_completed, C13_cancel_budget) -/
+    what the machine does (theorems C13_cancel_stops_requests, C13_caller_cancel_stops_requests,
+    C13_first_result_wins, C13_result_iff_completed, C13_cancel_budget) -/
 
 structure CReplay where
   k : ExecutorConc.MK
@@ -249,20 +249,20 @@ def stepSeen (mask : List Char) (k k' : ExecutorConc.MK) (i : Nat) (hostOf : Lis
       else ("e", hostOf.getD i 0)
   | _ => ("?", hostOf.getD i 0)
 
-def replayTok (pol : Option Policy) (derived : Bool) (mask : List Char) (e : Nat) (st : CReplay) (tok : String) : CReplay :=
+def replayTok (pol : Option Policy) (mask : List Char) (e : Nat) (st : CReplay) (tok : String) : CReplay :=
   if st.bad.isSome then st
   else
     let fail (why : String) : CReplay := { st with bad := some s!"{why}@{tok}" }
     let c := st.k.c
     match tok.splitOn ":" with
-    | ["X"] => { st with k := ExecutorConc.stepK pol derived st.k .callerCancel }
+    | ["X"] => { st with k := ExecutorConc.stepK pol st.k .callerCancel }
     | ["R", res] =>
         if st.gotR then fail "second-result"
         else match c.result with
           | none => fail "result-before-any-completion"
           | some r =>
             if showCRes r != res then fail s!"not-the-first-result:{showCRes r}"
-            else { st with k := ExecutorConc.stepK pol derived st.k .execCancel, gotR := true }
+            else { st with k := ExecutorConc.stepK pol st.k .execCancel, gotR := true }
     | [a, out] =>
         let kind := a.toList.headD ' '
         match (String.ofList (a.toList.drop 1)).toNat? with
@@ -276,18 +276,18 @@ def replayTok (pol : Option Policy) (derived : Bool) (mask : List Char) (e : Nat
               | _, _ => false
             if !okState then fail "step-not-enabled"
             else
-              let k' := ExecutorConc.stepK pol derived st.k (.ex (if kind == 'L' then .launch i else .decide i))
+              let k' := ExecutorConc.stepK pol st.k (.ex (if kind == 'L' then .launch i else .decide i))
               let (want, h) := stepSeen mask st.k k' i st.hostOf
               if want != out then
                 -- a request where the machine sends none, after the context of the attempts is done
-                if c.attDone derived && out.startsWith "s" then fail s!"request-after-cancellation:{want}"
+                if c.attDone && out.startsWith "s" then fail s!"request-after-cancellation:{want}"
                 else fail s!"expected:{want}"
               else { st with k := k', hostOf := st.hostOf.set i h }
           else if kind == 'C' || kind == 'c' then
             match c.m.exs[i]?, parseCRes out with
             | some .inflight, some r =>
-                if r == .logical && !c.attDone derived then fail "context-error-without-cancellation"
-                else { st with k := ExecutorConc.stepK pol derived st.k (.ex (.complete i r)) }
+                if r == .logical && !c.attDone then fail "context-error-without-cancellation"
+                else { st with k := ExecutorConc.stepK pol st.k (.ex (.complete i r)) }
             | _, _ => fail "completion-not-enabled"
           else fail "bad-token"
     | _ => fail "bad-token"
@@ -299,12 +299,12 @@ def speccOp (kind idem pol a nh cons0 events nreq att obsInfo consEnd : String) 
         nreq.toNat?, att.toNat?, cons0.toNat?, consEnd.toNat? with
   | some k, some idm, some p, some sa, some hosts, some n, some cntEnd, some cs0, some csEnd =>
     let e := maxExecutions idm sa
-    -- `Conn.executeQuery` runs the attempt under the executor's context, `Conn.executeBatch` under `batch.Context()`
-    let derived := k == .query
+    -- every statement kind runs its attempts under the executor's context (since the repair of KF-C13-2)
+    let _ := k
     let toks := events.splitOn ","
     let arrived := (toks.filterMap fun t => if t.startsWith "A" then (t.drop 1).toNat? else none).headD 0
     let st0 : CReplay := { k := ExecutorConc.initK 0 hosts e cs0, hostOf := List.replicate e 0 }
-    let st := (toks.filter fun t => !t.startsWith "A").foldl (replayTok p derived mask e) st0
+    let st := (toks.filter fun t => !t.startsWith "A").foldl (replayTok p mask e) st0
     if arrived > e then s!"reject:too-many-executions:{arrived}"
     else match st.bad with
     | some why => s!"reject:{why}"
@@ -445,11 +445,10 @@ def step (_ : Unit) (ws : List String) : Unit × String :=
       "code=" ++ showRT (downgradingGetRetryType (.writeTimeout .unloggedBatch 0 1)) ++ " documented=" ++
         ((Spec.downgradingDoc (.writeTimeout .unloggedBatch 0 1)).map showRT).getD "-"
   | ["kf-batch-loser"] =>
-      -- proposed finding KF-C13-2 (theorem C13_cex_batch_loser_not_cancelled): the executor's cancellation does not
-      -- reach a batch's attempts
-      let c := ExecutorConc.runC (some (simplePolicy 2)) false (ExecutorConc.initC 0 3 2)
+      -- finding KF-C13-2, repaired: the executor's cancellation reaches a batch's attempts (C13_cancel_stops_requests)
+      let c := ExecutorConc.runC (some (simplePolicy 2)) (ExecutorConc.initC 0 3 2)
         [.ex (.launch 0), .ex (.launch 1), .ex (.complete 0 .ok), .ex (.decide 0), .execCancel]
-      let c' := ExecutorConc.runC (some (simplePolicy 2)) false c [.ex (.complete 1 (.err 9)), .ex (.decide 1)]
+      let c' := ExecutorConc.runC (some (simplePolicy 2)) c [.ex (.complete 1 (.err 9)), .ex (.decide 1)]
       s!"sent-after-result={c'.m.sent - c.m.sent}"
   | ["kf-d10"] =>
       -- known finding KF-C13-1: the attempts do not depend on idempotence
